@@ -45,6 +45,7 @@ type frame struct {
 	loopOf   map[*ssa.BasicBlock]*loopInfo
 	nameEnv  map[string]Val // params by contract names (for invariants)
 	defers   []*ssa.Defer
+	catch    *catchCtx
 	freeVars []Val
 	curCallArgs []ssa.Value
 	curEnv   map[ssa.Value]Val
@@ -151,6 +152,7 @@ func findLoops(fn *ssa.Function) []*loopInfo {
 // It returns the merged results, the final state and the condition of normal return.
 func (vc *VC) execFunc(fn *ssa.Function, args []Val, st *State, reach string, depth int, contract *Contract) ([]Val, *State, string) {
 	fr := &frame{vc: vc, fn: fn, depth: depth, args: args, contract: contract, loopOf: map[*ssa.BasicBlock]*loopInfo{}, exemptC03: vc.exemptC03 > 0}
+	fr.freeVars, vc.nextFreeVars = vc.nextFreeVars, nil
 	if contract == nil {
 		contract = vc.eng.specs.contracts[fnKey(fn)]
 		fr.contract = contract
@@ -213,8 +215,23 @@ func (vc *VC) execFunc(fn *ssa.Function, args []Val, st *State, reach string, de
 	}
 	incoming[nkey{0, 0}] = []edgePayload{{cond: reach, st: st.clone(), env: entryEnv}}
 	rc := &runCtx{}
+	if d, clo := recoverDefer(fn); d != nil {
+		fr.catch = &catchCtx{pk: vc.fresh("panicked", sortBool), deferIns: d, closure: clo, heaps: map[string]bool{}, ghosts: map[string]bool{},
+			nLog: len(vc.writeLog), nDecl: len(vc.decls)}
+		vc.catchStack = append(vc.catchStack, fr.catch)
+		vc.note("%s recovers from panics: potential panic points in its dynamic extent lead to its recover path instead of being safety obligations", shortFn(fn))
+	}
 	fr.run(fr.order, incoming, rc)
 	rets := rc.rets
+	if c := fr.catch; c != nil {
+		vc.catchStack = vc.catchStack[:len(vc.catchStack)-1]
+		for i := range rets {
+			rets[i].cond = and(rets[i].cond, "(not "+c.pk+")")
+		}
+		if c.env != nil {
+			rets = append(rets, fr.panicPath(c, st, reach)...)
+		}
+	}
 
 	// merge returns
 	if len(rets) == 0 {
@@ -602,10 +619,7 @@ func (fr *frame) execInstr(ins ssa.Instruction, st *State, env map[ssa.Value]Val
 	reg := vc.eng.types
 	op := func(v ssa.Value) Val { return fr.operand(v, env) }
 	safety := func(kind, what string, pos token.Pos, cond string) {
-		if vc.safety {
-			vc.oblige("safety", fmt.Sprintf("%s#safety:%s(%s)", shortFn(fr.fn), kind, what), vc.pos(pos), kind+" "+what, alive, cond, []string{"C14"})
-		}
-		vc.assume(alive, cond)
+		vc.safetyCheck(fmt.Sprintf("%s#safety:%s(%s)", shortFn(fr.fn), kind, what), vc.pos(pos), kind+" "+what, alive, cond, st)
 	}
 	switch x := ins.(type) {
 	case *ssa.DebugRef:
@@ -766,8 +780,28 @@ func (fr *frame) execInstr(ins ssa.Instruction, st *State, env map[ssa.Value]Val
 		return a
 	case *ssa.Defer:
 		fr.defers = append(fr.defers, x)
+		if c := fr.catch; c != nil && c.deferIns == x {
+			if cv, ok := env[x.Call.Value]; ok {
+				if ci := vc.eng.closures[cv.t]; ci != nil {
+					c.bindings = ci.bindings
+					c.env = make(map[ssa.Value]Val, len(env))
+					for k, v := range env {
+						c.env[k] = v
+					}
+				}
+			}
+			return alive
+		}
 		vc.note("defer in %s: deferred call effects are not modelled (only iterator Close calls occur in the repository)", shortFn(fr.fn))
 	case *ssa.RunDefers:
+		if c := fr.catch; c != nil && c.env != nil {
+			// normal return: the deferred closure runs with recover() == nil
+			vc.recoverVals = append(vc.recoverVals, "(mkIface 0 0)")
+			out, ret := vc.runClosure(c.closure, c.bindings, st, alive, fr.depth+1)
+			vc.recoverVals = vc.recoverVals[:len(vc.recoverVals)-1]
+			fr.setState(st, out)
+			return ret
+		}
 	case *ssa.Go, *ssa.Send, *ssa.Select:
 		vc.unsupported[fmt.Sprintf("concurrency instruction %T at %s", ins, vc.pos(ins.Pos()))] = true
 	case *ssa.Range:
